@@ -110,6 +110,8 @@ def main(argv=None) -> int:
             for r in sr:
                 if r["got"] == "patch-does-not-apply":
                     rep.note(f"seeded change {r['seed']} no longer applies (source changed)")
+                elif r["got"] != "refute" and r.get("primary") and r.get("expect") == "missed":
+                    rep.note(f"seeded change {r['seed']} is recorded as MISSED by this check (checker gave {r['got']}); see its meta.json")
                 elif r["got"] != "refute" and r.get("primary"):
                     rep.errors.append(f"SELFTEST seeded change {r['seed']} is not refuted (checker gave {r['got']})")
             nr = neutral_run(pid, project.repo)
